@@ -292,8 +292,16 @@ func (r *runner) runScript(ctx context.Context, b *liveBroker) {
 				r.wait(b.bconn.done)
 			}
 		case "broker_close":
-			_ = b.strm.GetConnection().Close()
-			time.Sleep(2 * time.Millisecond)
+			// half-close: the requester reads EOF where it expects the reply; we keep
+			// our read side so that we can see the requester tear the connection
+			// down (= the attempt is over) before the next step
+			if tc, ok := b.strm.GetConnection().(*net.TCPConn); ok {
+				_ = tc.CloseWrite()
+				r.wait(b.bconn.done)
+			} else {
+				_ = b.strm.GetConnection().Close()
+				time.Sleep(20 * time.Millisecond)
+			}
 		case "hello": // proxied mode: the hello travels on the broker connection
 			g := st.G.resolve(b.id, r.sc.PrevID)
 			st.G = &g
